@@ -85,7 +85,7 @@ def run(tier, seed):
     rep = Report(PID, tier, seed, "fault_enumeration")
     po = proof_obligations("WowVerif.Thm.C03", ["wowdrv"])
     add_proof_failures(rep, po)
-    conts = build_corpus()
+    conts = build_corpus(expanded=True)
     ok = [c for c in conts if "tokens" in c]
     rc, out, har = harness_build("world")
     if rc != 0:
